@@ -24,7 +24,8 @@ and demands
   `job-message-expired` (recorded finding): the same failure when the expiry was caused by a job message with the
   text `expired` (the scheduler treats it like its own clock-expiry message);
 * `expired-submitted`   (expired_never_submits) no job is launched for an instance from its expiry on (unless the
-  user triggers the expired task again);
+  user triggers the expired task again);  `expired-revived` (recorded finding): the same failure when a job message
+  (received / polled) had moved the instance out of the `expired` state before;
 * `expire-spawned-non-child` / `expire-child-unsatisfied` / `expire-child-not-spawned`   (expire_children) the keys
   that enter the pool while the `expired` output is processed are children of that output (or the next parentless
   instance of a task it removed by suicide trigger); every child in the pool afterwards has its prerequisite on the
@@ -79,6 +80,7 @@ structure Mon where
   prevExpired : List Key := []    -- pool members shown `expired` in the previous observation
   manual : List Key := []         -- instances the operator has triggered (`cylc trigger`) whose job has not been
                                   -- launched since; forgotten when the instance leaves the pool or the scheduler restarts
+  revived : List Key := []        -- expired instances that a job message has since moved out of the `expired` state
   prevLive : List Key := []       -- pool members shown preparing / submitted / running in the previous observation
   offsets : List (String × Int) := []   -- the clock-expire offsets of the definition in force (changed by `cylc reload`)
   deriving Inhabited
@@ -184,6 +186,11 @@ def judgeStep (sp : Spec) (g : Graph) (idx : Nat) (op : Json) (ob : Json) (m : M
   let guard (e : Ev) : Option String :=
     (judgeGuard sp g m e).map fun w =>
       if jobMsgs.contains e.key then s!"job-message-expired: (a job message `expired` was processed) {w}" else w
+  -- expired instances that a job message (received / polled) of this op moved out of the `expired` state
+  let revivedNow : List Key := ((jArrField? ob "msgs").getD []).filterMap fun r =>
+    let st (f : String) : Option String := ((jArrField? r f).getD []).head?.bind jStr?
+    if jStrField? r "fl" != some "internal" && st "b" == some "expired" && st "a" != some "expired" && (st "a").isSome
+    then some (keyOf r) else none
   let why : Option String :=
     match firstSome evs guard with
     | some w => some w
@@ -193,7 +200,10 @@ def judgeStep (sp : Spec) (g : Graph) (idx : Nat) (op : Json) (ob : Json) (m : M
     | none =>
     let expd := m.expired ++ evs.map (·.key)
     match launches.find? expd.contains with
-    | some k => some s!"expired-submitted: a job was launched for {showKey k} after it expired"
+    | some k =>
+      if (m.revived ++ revivedNow).contains k then
+        some s!"expired-revived: (a job message moved the expired {showKey k} out of the expired state) expired-submitted: a job was launched for {showKey k} after it expired"
+      else some s!"expired-submitted: a job was launched for {showKey k} after it expired"
     | none =>
       match nowExpired.find? fun k => !(m.prevExpired.contains k || expd.contains k) with
       | some k => some s!"expired-unseen: {showKey k} is shown expired but no expiry was observed"
@@ -202,6 +212,7 @@ def judgeStep (sp : Spec) (g : Graph) (idx : Nat) (op : Json) (ob : Json) (m : M
     jStrField? t "st" == some "preparing" || jStrField? t "st" == some "submitted" || jStrField? t "st" == some "running").map keyOf
   let pooled := pool.map keyOf
   ({ m with expired := m.expired ++ evs.map (·.key), seen := seenNow, prevExpired := nowExpired, prevLive := live,
+            revived := m.revived ++ revivedNow,
             manual := m.manual.filter fun k => pooled.contains k && !launches.contains k },
    why.map fun w => s!"{w} (obs {idx})")
 
